@@ -12,7 +12,7 @@ PROP = {
     ],
 }
 TEXT = {
-    "text": "Coq theorem over every reachable state, every operation and every crash image of that operation (disk before/after the operation's single durable step; for start-up any prefix of its re-appends and file creations): start-up on the image succeeds and recovers a state extensionally equal to the state before or after the operation, and a server recovered without a GCA key still accepts its registration. Built on C04's load_spec plus the lemma that a report log extended by reports it already contains is replay-neutral. Harness: persistence yield points copy the real directory at every create/append/rename (first start, registration, authorizations, reports, rotations, restarts); a real server is then started on every copy (hundreds per run), its snapshot must equal the view before or after the interrupted operation (Go-side oracle) and the model's load on the same image (vm_compute). Thorough tier adds SIGKILL of a child server at random instants.",
+    "text": "Coq theorem over every reachable state, every operation and every crash image of that operation (disk before/after the operation's single durable step; for start-up any prefix of its re-appends and file creations): start-up on the image succeeds and recovers a state extensionally equal to the state before or after the operation, and a server recovered without a GCA key still accepts its registration. Built on C04's load_spec plus the lemma that a report log extended by reports it already contains is replay-neutral. Harness: persistence yield points copy the real directory at every create/append/rename (first start, registration, authorizations, reports, rotations, restarts); a real server is then started on every copy (hundreds per run), its snapshot must equal the view before or after the interrupted operation (Go-side oracle) and the model's load on the same image (vm_compute). Thorough tier adds SIGKILL of a child server at random instants. Added after seeded-change rounds: suite tornfiles (record files ending in stray bytes are refused at start-up), a static scan of the persistence functions for the single-write discipline with synthesized cut-record images when it is broken.",
     "note": "Trusted: Coq kernel+vm_compute, harness, kernel atomicity of append/rename (the property's own crash model). fsync/power-loss durability is outside the property.",
     "technique": "Coq proof (crash images reduce to C04's disk-memory agreement + replay-neutral tail) + crash-image materialisation against the real server + differential correspondence",
 }
